@@ -79,8 +79,9 @@ static int sps_in_region(int h, int j) {
 }
 
 /* configuration after the microstep that takes the transitions sel[] from configuration C with history H;
- * pristine: the initial step (enter the root and its default completion) */
-static void sps_config(const unsigned char *C, const unsigned char *H, const int *sel, int pristine, unsigned char *out) {
+ * pristine: the initial step (enter the root and its default completion).
+ * exited / entered: the states whose onexit / onentry handlers run in this step */
+static void sps_config(const unsigned char *C, const unsigned char *H, const int *sel, int pristine, unsigned char *out, unsigned char *exited, unsigned char *entered) {
   unsigned char X[SPS_NB], E[SPS_NB], tmp[SPS_NB], Hn[SPS_NB];
   sp_zero(X, SPS_NB); sp_zero(E, SPS_NB);
   for (int k = 0; k < SPS_NB; k++) Hn[k] = H[k];
@@ -164,7 +165,7 @@ static void sps_config(const unsigned char *C, const unsigned char *H, const int
       }
     }
   }
-  for (int k = 0; k < SPS_NB; k++) out[k] = (unsigned char)(C[k] & ~X[k]);
-  for (int i = 0; i < D_N; i++) if (sp_bit(E, i) && sp_proper(i)) sp_set(out, i);
+  for (int k = 0; k < SPS_NB; k++) { out[k] = (unsigned char)(C[k] & ~X[k]); exited[k] = X[k]; entered[k] = 0; }
+  for (int i = 0; i < D_N; i++) if (sp_bit(E, i) && sp_proper(i)) { if (!sp_bit(out, i)) sp_set(entered, i); sp_set(out, i); }
 }
 #endif
